@@ -6,4 +6,5 @@ export GOFLAGS=-mod=mod GOPROXY=off
 python3 lib/vcheck.py sync
 (cd lean && lake build)
 # warm the Go build cache for every engine (compiles /repo's packages once)
-(cd harness && go vet -tags verif ./... >/dev/null 2>&1 || true; go test -tags verif -count=1 -run '^$' ./... )
+GOBIN_=go; if command -v go1.26.8 >/dev/null 2>&1; then GOBIN_=go1.26.8; export GOTOOLCHAIN=local; fi
+(cd harness && $GOBIN_ test -tags verif -count=1 -run '^$' ./... )
